@@ -3,13 +3,11 @@ From Coq Require Import ZArith List Bool Arith.
 From SH Require Import gen.Extracted_pipe pipe.Model pipe.Spec props.C13.
 Import ListNotations.
 Open Scope nat_scope.
-Check C13_one_nonblocking_byte_refuted : ~ one_nonblocking_byte_statement.
-Check C13_one_nonblocking_byte_partial :
+Check C13_one_nonblocking_byte :
   forall accept, accept_empty accept ->
-  forall (w : list chan_spec) (h : list op),
+  forall (w : list chan_spec) (h : list op), world_in_bytes w ->
     (forall sig, delivery_ok accept (run accept w h) sig) /\
-    (forall ch, let c := getc (chans (run accept w h)) ch in
-                chan_ok_partial c /\ (c_kind c <> KDgram -> chan_ok_full c)).
+    (forall ch, chan_ok_full (getc (chans (run accept w h)) ch)).
 Check C13_fd_lifecycle :
   forall accept (w : list chan_spec) (h : list op),
     let st := run accept w h in
@@ -24,7 +22,6 @@ Check C13_iterator_wake_nonblocking :
     snd (fst (wake_arm iter_wake_method)) = 1%Z /\
     sys_result accept clk c (fst (fst (wake_arm iter_wake_method))) (snd (fst (wake_arm iter_wake_method)))
                (snd (wake_arm iter_wake_method)) <> WBlocks.
-Print Assumptions C13_one_nonblocking_byte_refuted.
-Print Assumptions C13_one_nonblocking_byte_partial.
+Print Assumptions C13_one_nonblocking_byte.
 Print Assumptions C13_fd_lifecycle.
 Print Assumptions C13_iterator_wake_nonblocking.
